@@ -111,6 +111,10 @@ class Expr:
                 return f"(WS.absR {self.tr(e.args[0])})"
             if fn == "np.minimum":
                 return f"(WS.minR {self.tr(e.args[0])} {self.tr(e.args[1])})"
+            # x.min() / x.max() on a named array (numpy reductions of a non-empty 1-D array)
+            if (isinstance(e.func, ast.Attribute) and e.func.attr in ("min", "max") and isinstance(e.func.value, ast.Name)
+                    and not e.args and not e.keywords):
+                return f"(WS.Select.arr{e.func.attr.capitalize()} {e.func.value.id})"
         raise Untranslatable("expr: " + ast.dump(e)[:200])
 
     def idx(self, e):
@@ -215,7 +219,38 @@ def kernel_angle():
     return "def angle (dir1 dir2 : Rat) : Rat :=\n" + "\n".join(lines) + "\n"
 
 
-KERNELS = {"Tps": [kernel_tps, kernel_tp], "IsOverlap": [kernel_is_overlap], "Angle": [kernel_angle]}
+def _kernel_lonconv(pyname, leanname):
+    """Coordinates._is_180 / _is_360: `if <cond on array.min()/max()>: return True` … `return False`."""
+    fn = find_func("wavespectra/core/select.py", f"Coordinates.{pyname}")
+    if [a.arg for a in fn.args.args] != ["self", "array"]:
+        raise Untranslatable(f"{pyname}: signature")
+    top = body_stmts(fn)
+    ex = Expr()
+    code = ""
+    for st in top[:-1]:
+        if not (isinstance(st, ast.If) and len(st.body) == 1 and isinstance(st.body[0], ast.Return)
+                and isinstance(st.body[0].value, ast.Constant) and isinstance(st.body[0].value.value, bool) and not st.orelse):
+            raise Untranslatable(f"{pyname}: if")
+        code += f"  if {ex.cond(st.test)} then {str(st.body[0].value.value).lower()} else\n"
+    last = top[-1]
+    if not (isinstance(last, ast.Return) and isinstance(last.value, ast.Constant) and isinstance(last.value.value, bool)):
+        raise Untranslatable(f"{pyname}: final return")
+    code += f"  {str(last.value.value).lower()}\n"
+    return f"def {leanname} (array : List Rat) : Bool :=\n" + code
+
+
+def kernel_is_180():
+    return _kernel_lonconv("_is_180", "is180")
+
+
+def kernel_is_360():
+    return _kernel_lonconv("_is_360", "is360")
+
+
+KERNELS = {"Tps": [kernel_tps, kernel_tp], "IsOverlap": [kernel_is_overlap], "Angle": [kernel_angle],
+           "LonConv": [kernel_is_180, kernel_is_360]}
+# extra imports of a generated kernel file (helpers the kernel's grammar maps to)
+KERNEL_IMPORTS = {"LonConv": ["WsVerif.Model.Select"]}
 
 # functions whose numeric literals are regenerated: (lean name, path, qualname)
 LITS = [
@@ -252,6 +287,11 @@ LITS = [
     ("tracking_match", "wavespectra/partition/tracking.py", "match_consecutive_partitions"),
     ("tracking_np_track", "wavespectra/partition/tracking.py", "np_track_partitions"),
     ("tracking_dfp_swell", "wavespectra/partition/tracking.py", "dfp_swell"),
+    ("select_distance", "wavespectra/core/select.py", "Coordinates.distance"),
+    ("select_swap", "wavespectra/core/select.py", "Coordinates._swap_longitude_convention"),
+    ("select_sel_bbox", "wavespectra/core/select.py", "sel_bbox"),
+    ("select_sel_idw", "wavespectra/core/select.py", "sel_idw"),
+    ("select_sel_nearest", "wavespectra/core/select.py", "sel_nearest"),
 ]
 
 PRELUDE = """import WsVerif.Model.Basic
@@ -286,7 +326,8 @@ def generate():
     body += "end WS.Gen\n"
     write_if_changed(gen / "Lits.lean", body)
     for fname, ks in KERNELS.items():
-        text = "import WsVerif.Gen.Prelude\n/-! GENERATED scalar kernels. -/\nnamespace WS.Gen\n"
+        text = ("import WsVerif.Gen.Prelude\n" + "".join(f"import {m}\n" for m in KERNEL_IMPORTS.get(fname, []))
+                + "/-! GENERATED scalar kernels. -/\nnamespace WS.Gen\n")
         for k in ks:
             try:
                 text += k() + "\n"
